@@ -379,9 +379,11 @@ package dag
 //@   ensures [C13 error_or_dag] err == nil ==> d != nil
 //@   ensures [C13 accepted_definition_is_runnable] err == nil && !opts.metadataOnly ==> dag_runnable(d)
 
+//@ ghost obs.validate_err error      // outcome of the last LoadYAML (validation on save)
 //@ fn LoadYAML(data) (d, err)
 //@   props C13 C19 C18
 //@   safety
+//@   records obs.validate_err = err
 //@   modifies heap(alloc), heap(map(string, any)), heap(elems(any)), ghost eff.exec, ghost eff.env, ghost env.key, ghost env.val, ghost obs.exists_calls, ghost obs.exists, ghost obs.exists_path, ghost obs.stat_err, ghost obs.stat_path
 //@   ensures [C19 validating_has_no_side_effects] eff.exec == old(eff.exec) && eff.env == old(eff.env)
 //@   ensures [C13 error_or_runnable_dag] err == nil ==> (d != nil && dag_runnable(d))
